@@ -70,7 +70,8 @@ func GetJsonDataType(t dsl.Type) JsonDataType {
 	case *dsl.RecordDefinition:
 		return JsonObject
 	case *dsl.GenericTypeParameter:
-		return JsonObject
+		// the type argument can be anything
+		return JsonNull | JsonBoolean | JsonNumber | JsonString | JsonArray | JsonObject
 	case *dsl.NamedType:
 		return GetJsonDataType(td.Type)
 	default:
